@@ -112,6 +112,14 @@ fn option_set(rng: &mut Rng, ops: &[String], query_path: &str) -> Value {
     if rng.chance(1, 5) {
         o.insert("skip_serializing_none".into(), json!(rng.chance(1, 2)));
     }
+    if rng.chance(1, 8) {
+        o.insert("struct_name".into(), json!(*rng.pick(&["Renamed", "other_name", "Q"])));
+    }
+    if rng.chance(1, 30) {
+        // not a list of derive paths: whatever the generator does with it, it must do every time
+        let key = if rng.chance(1, 2) { "response_derives" } else { "variables_derives" };
+        o.insert(key.into(), json!(*rng.pick(&["Debug,, Clone", "Debug Clone", "1abc, Debug", "Debug, not a path!, Clone", ""])));
+    }
     Value::Object(o)
 }
 
